@@ -567,6 +567,10 @@ func (g *Gen) modifyKind(s *gsession, forced int) {
 			nf.SNDEM = true
 		}
 
+		if g.R.Intn(3) == 0 { // the flags octet carries other bits as well (DROBU, QAURR, spare)
+			nf.SMReq, nf.SMReqOther = true, []uint8{0x01, 0x04, 0x05, 0x80, 0x85}[g.R.Intn(5)]
+		}
+
 		b.fd = nf
 		r.UFAR = append(r.UFAR, nf)
 
@@ -616,6 +620,12 @@ func (g *Gen) modifyKind(s *gsession, forced int) {
 
 		if np.UE == "alloc" && s.ueip == 0 {
 			break
+		}
+
+		if g.R.Intn(3) == 0 && np.AppID == "" {
+			// the Update PDR carries a new SDF filter: the rule matches other packets from now on (the PDI is replaced)
+			np.SDF = g.flow(true)
+			g.Stats["mod_updr_newfilter"]++
 		}
 
 		b.dl = np
